@@ -8,13 +8,13 @@
 package main
 
 import (
-	"encoding/json"
-	"path/filepath"
-	"os"
 	"context"
+	"encoding/json"
 	"fmt"
 	"net/http"
 	"net/url"
+	"os"
+	"path/filepath"
 	"reflect"
 	"runtime"
 	"sort"
@@ -861,6 +861,131 @@ func refUnescape(s string) (string, bool) {
 	return b.String(), true
 }
 
+// defaults: a parameter that leaves out `style` and / or `explode` gets the defaults of the OpenAPI
+// specification (style: simple for path and header, form for query and cookie; explode: true for
+// form, false for every other style).  Every (location, style given or not, shape) with explode left
+// out is generated; the operation the generator builds must carry the prescribed cell.  deepObject is
+// only defined with explode=true and is skipped.
+func defaults(r *vf.Run) {
+	schema := map[string]string{
+		"prim":   `{"type":"string"}`,
+		"array":  `{"type":"array","items":{"type":"string"}}`,
+		"object": `{"type":"object","properties":{"a":{"type":"string"},"b":{"type":"string"}}}`,
+	}
+	defStyle := map[string]string{"path": "simple", "header": "simple", "query": "form", "cookie": "form"}
+	var n int64
+	for _, loc := range []string{"path", "query", "header", "cookie"} {
+		for _, st := range []string{"", "simple", "label", "matrix", "form", "spaceDelimited", "pipeDelimited"} {
+			for _, sh := range []string{"prim", "array", "object"} {
+				path, req := "/x", "false"
+				if loc == "path" {
+					path, req = "/x/{p}", "true"
+				}
+				styleMember := ""
+				if st != "" {
+					styleMember = fmt.Sprintf(`"style":%q,`, st)
+				}
+				doc := fmt.Sprintf(`{"openapi":"3.0.3","info":{"title":"t","version":"1"},"paths":{%q:{"get":{"operationId":"op","parameters":[{"name":"p","in":%q,"required":%s,%s"schema":%s}],"responses":{"200":{"description":"ok"}}}}}}`, path, loc, req, styleMember, schema[sh])
+				var g *gen.Generator
+				func() {
+					defer func() { _ = recover() }()
+					spec, err := ogen.Parse([]byte(doc))
+					if err != nil {
+						return
+					}
+					g, _ = gen.NewGenerator(spec, gen.Options{})
+				}()
+				if g == nil || len(g.Operations()) != 1 || len(g.Operations()[0].Params) != 1 {
+					continue // refused: nothing is serialized
+				}
+				n++
+				ps := g.Operations()[0].Params[0].Spec
+				wantStyle := st
+				if wantStyle == "" {
+					wantStyle = defStyle[loc]
+				}
+				wantExplode := wantStyle == "form"
+				if string(ps.Style) != wantStyle || ps.Explode != wantExplode {
+					r.Violation(map[string]string{"class": "default-style-or-explode-differs-from-the-specification", "in": loc, "style": wantStyle, "shape": sh}, len(doc),
+						map[string]any{"in": loc, "style_written": st, "shape": sh, "generated_style": string(ps.Style), "generated_explode": ps.Explode, "prescribed_style": wantStyle, "prescribed_explode": wantExplode, "document": doc})
+				}
+			}
+		}
+	}
+	r.Eval(n)
+	r.NontrivialN(n)
+	r.Set("documents_with_defaulted_style_or_explode_generated", n)
+}
+
+// headerNames: the header encoder serializes an array differently when the parameter is called
+// Set-Cookie (one header line per item, RFC 6265: the lines must not be folded).  The name is part of
+// the cell: arrays of 0-3 items over the delimiter alphabet under that name (three letter cases,
+// both explode settings) must come back unchanged, be refused by the encoder, or make the decoder fail.
+func headerNames(r *vf.Run, items []string) {
+	var n int64
+	for _, name := range []string{"Set-Cookie", "set-cookie", "SET-COOKIE"} {
+		for _, ex := range []bool{false, true} {
+			var vals [][]string
+			for _, a := range items {
+				vals = append(vals, []string{a})
+				for _, b := range items {
+					vals = append(vals, []string{a, b})
+				}
+			}
+			vals = append(vals, []string{"a=1; Path=/", "b=2; Expires=Wed, 21 Oct 2015 07:28:00 GMT", "c=3"})
+			for _, v := range vals {
+				n++
+				h := http.Header{}
+				c := cell{"header", "simple", ex, "array"}
+				var got value
+				var encErr, decErr error
+				var pan any
+				func() {
+					defer func() { pan = recover() }()
+					encErr = uri.NewHeaderEncoder(h).EncodeParam(uri.HeaderParameterEncodingConfig{Name: name, Explode: ex}, func(e uri.Encoder) error { return encodeInto(e, c, value{Items: v}) })
+					if encErr != nil {
+						return
+					}
+					d := uri.NewHeaderDecoder(h)
+					cfg := uri.HeaderParameterDecodingConfig{Name: name, Explode: ex}
+					if decErr = d.HasParam(cfg); decErr != nil {
+						return
+					}
+					decErr = d.DecodeParam(cfg, func(d uri.Decoder) error {
+						var err error
+						got, err = decodeFrom(d, c)
+						return err
+					})
+				}()
+				core := true
+				for _, it := range v {
+					if it == "" || strings.TrimSpace(it) != it || strings.ContainsAny(it, "\r\n\x00") {
+						core = false
+					}
+				}
+				class := ""
+				switch {
+				case pan != nil:
+					class = "panic"
+				case encErr != nil || decErr != nil:
+					if core {
+						class = "core-value-not-delivered"
+					}
+				case !reflect.DeepEqual(got.Items, v):
+					class = "different-value-delivered"
+				}
+				if class != "" {
+					r.Violation(map[string]string{"class": class + "/header-named-set-cookie", "in": "header", "name": "set-cookie", "explode": fmt.Sprint(ex)}, len(strings.Join(v, ","))+len(v),
+						map[string]any{"header_name": name, "explode": ex, "sent": v, "header_lines": h.Values(name), "received": got.Items, "encoder_error": fmt.Sprint(encErr), "decoder_error": fmt.Sprint(decErr), "panic": fmt.Sprint(pan)})
+				}
+			}
+		}
+	}
+	r.Eval(n)
+	r.NontrivialN(n)
+	r.Set("set_cookie_header_arrays", n)
+}
+
 // ---------- several parameters through one encoder / one decoder ----------
 
 // sequences: the generated client encodes all parameters of a location with ONE encoder object (one
@@ -1163,15 +1288,24 @@ func main() {
 	// types and panic if you try to encode/decode them"): an array or object below the top level,
 	// however it is spelled (inside a map, through a recursive reference).  Whatever is admitted
 	// panics in the generated client on the first value that has the nested part.
-	nested := map[string]string{
-		"map-of-arrays":    `{"type":"object","additionalProperties":{"type":"array","items":{"type":"string"}}}`,
-		"map-of-objects":   `{"type":"object","additionalProperties":{"type":"object","properties":{"a":{"type":"string"}}}}`,
-		"recursive-object": `{"$ref":"#/components/schemas/Rec"}`,
-		"object-of-arrays": `{"type":"object","properties":{"a":{"type":"array","items":{"type":"string"}}}}`,
-		"array-of-arrays":  `{"type":"array","items":{"type":"array","items":{"type":"string"}}}`,
-		"array-of-objects": `{"type":"array","items":{"type":"object","properties":{"a":{"type":"string"}}}}`,
-		"object-of-object": `{"type":"object","properties":{"o":{"type":"object","properties":{"a":{"type":"string"}}}}}`,
-		"map-of-maps":      `{"type":"object","additionalProperties":{"type":"object","additionalProperties":{"type":"string"}}}`,
+	// the product outer x inner, the inner part written in place and through a component, plus recursion
+	nested := map[string]string{"recursive-object": `{"$ref":"#/components/schemas/Rec"}`}
+	inners := map[string]string{
+		"arrays":  `{"type":"array","items":{"type":"string"}}`,
+		"objects": `{"type":"object","properties":{"a":{"type":"string"}}}`,
+		"maps":    `{"type":"object","additionalProperties":{"type":"string"}}`,
+	}
+	for in, inner := range inners {
+		for _, viaRef := range []bool{false, true} {
+			sfx := ""
+			if viaRef {
+				inner = `{"$ref":"#/components/schemas/In` + in + `"}`
+				sfx = "-by-reference"
+			}
+			nested["array-of-"+in+sfx] = `{"type":"array","items":` + inner + `}`
+			nested["object-of-"+in+sfx] = `{"type":"object","properties":{"name":{"type":"string"},"o":` + inner + `}}`
+			nested["map-of-"+in+sfx] = `{"type":"object","additionalProperties":` + inner + `}`
+		}
 	}
 	var nestedNames []string
 	for k := range nested {
@@ -1187,7 +1321,7 @@ func main() {
 					if loc == "path" {
 						path, req = "/x/{p}", "true"
 					}
-					doc := fmt.Sprintf(`{"openapi":"3.0.3","info":{"title":"t","version":"1"},"paths":{%q:{"get":{"operationId":"op","parameters":[{"name":"p","in":%q,"required":%s,"style":%q,"explode":%v,"schema":%s}],"responses":{"200":{"description":"ok"}}}}},"components":{"schemas":{"Rec":{"type":"object","properties":{"name":{"type":"string"},"next":{"$ref":"#/components/schemas/Rec"}}}}}}`, path, loc, req, st, ex, nested[sn])
+					doc := fmt.Sprintf(`{"openapi":"3.0.3","info":{"title":"t","version":"1"},"paths":{%q:{"get":{"operationId":"op","parameters":[{"name":"p","in":%q,"required":%s,"style":%q,"explode":%v,"schema":%s}],"responses":{"200":{"description":"ok"}}}}},"components":{"schemas":{"Rec":{"type":"object","properties":{"name":{"type":"string"},"next":{"$ref":"#/components/schemas/Rec"}}},"Inarrays":{"type":"array","items":{"type":"string"}},"Inobjects":{"type":"object","properties":{"a":{"type":"string"}}},"Inmaps":{"type":"object","additionalProperties":{"type":"string"}}}}}`, path, loc, req, st, ex, nested[sn])
 					nestedProbed++
 					if admittedDoc(doc) {
 						r.Violation(map[string]string{"class": "nested-shape-admitted-as-parameter/" + sn, "shape": sn, "in": loc}, len(sn),
@@ -1300,6 +1434,8 @@ func main() {
 	cookieEscapes(r, cookieLen)
 	pathAssembly(r)
 	sequences(r, cells, true)
+	defaults(r)
+	headerNames(r, sItem)
 
 	r.Sample(kase{Cell: cell{"path", "matrix", true, "object"}, Value: value{Fields: []uri.Field{{Name: "a", Value: "x y"}, {Name: "b", Value: "é"}}}, Wire: ";a=x%20y;b=%C3%A9", Expected: ";a=x y;b=é"})
 	r.Sample(kase{Cell: cell{"query", "pipeDelimited", false, "array"}, Value: value{Items: []string{"a", "b|c"}}, EncErr: "(must be refused or rejected: '|' is the active delimiter)"})
